@@ -134,17 +134,23 @@ define(
      ('tbrmmdesign', None, False),
      mm(['exhaustive_search.skip_if_subset', 'treatment_group_size_range',
          '_control_group_size_generator', 'treatment_group_generator',
-         'control_group_generator'])],
+         'control_group_generator', 'exhaustive_search'])],
     ENGINE_TRUST + ['itertools.combinations(S, r) produces every r-subset of '
                     'S exactly once'],
-    ['that the nested loops of exhaustive_search push every enumerated design '
-     'that passes the filters (completeness of the search itself) is not '
-     'discharged deductively: bounded brute-force comparison stands in'],
+    ['the composition (every legal design is visited by the nested loops, '
+     'every visited design that is not skipped is pushed, the heap keeps the '
+     'top k of the pushed ones => nothing feasible and not exempt is missing) '
+     'is argued in DESIGN.md from the proved pieces but not itself discharged '
+     'as one obligation: bounded brute-force comparison stands in'],
     'Proved: top-k of pushed designs (HeapDict contracts + history lemma), '
     'designs ordered by the lexicographic score, the pattern-skip closure, '
     'and exactness of the enumeration primitives (the size range, the control '
     'size generator and both group generators yield exactly the admissible '
-    'sizes / legal groups).  Completeness and best-first of the whole '
+    'sizes / legal groups), and every `continue` of exhaustive_search is '
+    'justified by a documented filter (treatment share outside range, '
+    'superset of a recorded over-budget group, optimistic budget outside '
+    'range; volume ratio / required budget outside the inclusive bounds).  '
+    'Completeness and best-first of the whole '
     'exhaustive search against a brute-force oracle is a bounded run-time '
     'contract (<= 5-6 geos).',
     'DESIGN.md section 7, C03',
